@@ -592,6 +592,33 @@ def check_arith(res, ctx, partners):
             if msg:
                 _V(res, kind, case, f'{name} for shapes {shape} ({ctx.kind}) and {sb} ({kb}): {msg}',
                    {'shape': list(bs), 'x': EX, 'y': EY}, repr(r))
+        # augmented assignment: `t = a; t += b` gives a + b as t and leaves a, b and the arrays they were built from alone
+        for sym, ref_fn in (('+=', add), ('-=', sub)):
+            from regions import PixCoord
+            b2 = _partner(sb, kb)[0]
+            xin, yin = ctx.inputs()
+            keep = [np.array(v, copy=True) if isinstance(v, np.ndarray) else _copy.deepcopy(v) for v in (xin, yin)]
+            a3 = PixCoord(xin, yin)
+            snap_a = _snap(a3)
+
+            def aug():
+                t = a3
+                if sym == '+=':
+                    t += b2
+                else:
+                    t -= b2
+                return t
+            ok, r = _call(res, aug)
+            if not ok:
+                _V(res, 'unexpected_exception', case, f'a {sym} b for shapes {shape}, {sb} raised {_ex(r)}')
+                continue
+            msg = _problem(r, bs, _map2(ref_fn, AX, BX), _map2(ref_fn, AY, BY))
+            if msg:
+                _V(res, 'add_wrong' if sym == '+=' else 'sub_wrong', case, f'`t = a; t {sym} b` for shapes {shape} ({ctx.kind}) and {sb} ({kb}): {msg}',
+                   None, repr(r))
+            same_in = all((np.array_equal(np.asarray(u), np.asarray(v)) if isinstance(u, np.ndarray) else u == v) for u, v in zip((xin, yin), keep))
+            if (r is not a3 and _snap(a3) != snap_a) or not same_in:
+                _V(res, 'arith_mutates_operand', case, f'`t = a; t {sym} b` changed a or the arrays a was built from (shapes {shape}, {sb})')
         # separation -----------------------------------------------------------
         fax, fay = (flat(AX), flat(AY)) if bs != () else ([AX], [AY])
         fbx, fby = (flat(BX), flat(BY)) if bs != () else ([BX], [BY])
@@ -1110,6 +1137,17 @@ def check_wcs(res, ctx, wspecs, origins, modes):
                     _V(res, 'roundtrip_wrong', case,
                        f'from_sky(to_sky(p)) with origin={o}, mode={m}, wcs {ws}, shape {shape} ({ctx.kind}): {msg}',
                        {'x': ctx.X, 'y': ctx.Y}, repr(q))
+                if m == 'all':
+                    # the documented default mode is 'all': omitting the keyword is the same call
+                    ok, qd = _call(res, lambda: PixCoord.from_sky(s, w, origin=o))
+                    ok2, sd = _call(res, lambda: p.to_sky(w, origin=o))
+                    if not ok or not ok2:
+                        _V(res, 'unexpected_exception', case, f'from_sky / to_sky without the mode keyword raised {_ex(qd if not ok else sd)}')
+                    else:
+                        md = _problem(qd, shape, ctx.X, ctx.Y, ptol)
+                        if md and not msg:
+                            _V(res, 'roundtrip_wrong', case, f'from_sky(to_sky(p)) with the mode keyword omitted (default "all"), origin={o}, wcs {ws}, '
+                                                             f'shape {shape}: {md}', {'x': ctx.X, 'y': ctx.Y}, repr(qd))
                 if o == 1:
                     # the origin argument must matter consistently in each direction
                     X1 = _map2(sub1, ctx.X, ctx.X) if shape != () else ctx.X - 1
